@@ -147,6 +147,14 @@ def model_check(chk, tier, known):
             chk.add_tlc(f"RaftImpl Dev={{}} {name} (symmetric)", res)
             chk.require(res.ok, f"RaftImpl with Dev={{}} violates {res.violated} in {name}")
         elif kind == "simulate":
+            mt = None
+            for mt in re.finditer(r"(?:Progress: |generated: )([\d,]+) states checked, ([\d,]+) traces generated",
+                                  res.stdout):
+                pass
+            if mt:
+                chk.extra["simulation_mode_n5"] = {"states_checked": int(mt.group(1).replace(",", "")),
+                                                   "traces": int(mt.group(2).replace(",", ""))}
+                res.generated = res.generated or int(mt.group(1).replace(",", ""))
             chk.add_tlc("RaftImpl Dev={} 5 nodes, simulation mode (random behaviours, depth 90)", res)
             chk.require(res.ok, f"RaftImpl with Dev={{}} violates {res.violated} in simulation mode (5 nodes)")
         elif kind.startswith("dev:"):
